@@ -46,7 +46,8 @@ def r1_pow_unit(facts, rep):
         seen.add(key)
         rep.ob("C04-R1", key, good, "eval::pow returns a quantity with unit %r; specified %r" % (unit, want), o.site,
                sample={"unit": repr(unit), "base_unit_empty": be, "exponent_zero": ez})
-    rep.floor("C04-R1", "unit classes of pow", len(seen), 4)
+    classes = {k.split(":exp_zero=")[0] for k in seen}
+    rep.floor("C04-R1", "unit classes of pow (base unit empty / non-empty)", len(classes), 2)
     res = U.compound_pow_summary(facts)
     if not rep.ob("C04-R1", "anchor:Compound::pow", res is not None, "Compound::pow analysed"):
         return
